@@ -79,7 +79,7 @@ def run_native(contract, case, values, pins=None):
     P.pins = dict(pins or {})
     import warnings
 
-    with quiet(), warnings.catch_warnings():
+    with quiet(), warnings.catch_warnings(), scratch_cwd():
         warnings.simplefilter("ignore")
         try:
             ctx = contract.scenario(ps, P, case)
@@ -90,6 +90,23 @@ def run_native(contract, case, values, pins=None):
             return "raise", P, e
         finally:
             reset_z3_options()
+
+
+@contextlib.contextmanager
+def scratch_cwd():
+    """native runs of the real library happen in a scratch directory (removed afterwards): the code under test
+    may write files relative to the working directory (intermediate solutions, exports)"""
+    import shutil
+    import tempfile
+
+    old = os.getcwd()
+    d = tempfile.mkdtemp(prefix="psvc-native-")
+    os.chdir(d)
+    try:
+        yield d
+    finally:
+        os.chdir(old)
+        shutil.rmtree(d, ignore_errors=True)
 
 
 def reset_z3_options():
@@ -302,6 +319,8 @@ def run_case(contract_id, case, props, tier="quick", seed=0, diff=True):
         pc = list(path.pc)
         if kind == "unsupported":
             report["unsupported"].append(f"path {path.prefix}: {outcome[1]}")
+            if diff:
+                _native_probe(report, contract, case, path, P, props, pi)
             continue
         for cl in path.side_clauses:
             _discharge_clause(report, contract, case, path, P, pc[: getattr(cl, "_pc_len", len(pc))], cl, props, oid, timeout, cross, seed, pi)
@@ -367,9 +386,10 @@ def run_case(contract_id, case, props, tier="quick", seed=0, diff=True):
                     if pc_values(path, P, extra) is None:
                         break
                     _differential(report, contract, case, path, P, pc, ctx, clauses, props, seed, pi, extra=list(extra))
-    for name, vals, goal in report.pop("native_false", []):
+    for name, vals, goal, cn, pi_ in report.pop("native_false", []):
         if not any(ob["clause"] == name and ob["status"] == "refuted" for ob in report["obligations"]):
             report["faults"].append(f"differential(eval): clause {name} is discharged on every engine path but false on the native run at {vals}: {goal}"[:1200])
+            _native_refuted(report, contract, case, cn, props, vals, pi_)
     report["wall_s"] = time.perf_counter() - t_start
     return report
 
@@ -500,6 +520,19 @@ def _differential(report, contract, case, path, P, pc, ctx, clauses, props, seed
         report["faults"].append(
             f"differential: engine path {path.prefix} ends normally but CPython raises {exc_name(res)}: {res} at {vals}"
         )
+        if _raised_in_library(res):
+            # the real code rejects an input the contract says it accepts: a failing input, natively observed
+            try:
+                announced = {n for (n, c) in contract.raises(Pn, case) if z3.is_true(z3.simplify(T(c)))}
+            except Exception:  # noqa
+                announced = set()
+            name = exc_name(res)
+            if name not in announced:
+                rprops = _props_of_raises(contract, props)
+                for prop in props:
+                    nm = f"raises_only_if[{name}]" if prop in rprops else f"reaches_postcondition[no unexpected {name}]"
+                    cn = Clause(nm, z3.BoolVal(False), props=(prop,), kind="raises", note=f"{name}: {res}"[:300])
+                    _native_refuted(report, contract, case, cn, props, vals, pi, raised=name)
         return
     try:
         ncl = contract.clauses(Pn, res, case)
@@ -516,7 +549,7 @@ def _differential(report, contract, case, path, P, pc, ctx, clauses, props, seed
                 continue
             r = discharge.check(cn.hyps + [z3.Not(cn.goal)], 30)
             if r["answer"] == "sat":
-                report.setdefault("native_false", []).append((cn.name, str(vals), str(cn.goal)[:600]))
+                report.setdefault("native_false", []).append((cn.name, dict(vals), str(cn.goal)[:600], cn, pi))
         return
     if [c.name for c in ncl] != [c.name for c in clauses]:
         report["faults"].append(f"differential: clause lists differ at {vals}")
@@ -534,6 +567,102 @@ def _differential(report, contract, case, path, P, pc, ctx, clauses, props, seed
         )
         if ok is False:
             report["faults"].append(f"differential: clause {ce.name} at {vals}: {why}"[:1500])
+            # the formulas CPython builds are the real ones: decide the clause on them at this parameter point
+            rn_ = discharge.check(cn.hyps + [z3.Not(cn.goal)], 30)
+            if rn_["answer"] == "sat":
+                _native_refuted(report, contract, case, cn, props, vals, pi)
+
+
+def _native_refuted(report, contract, case, cn, props, vals, pi, raised=None):
+    """a clause that is false on a native run of the real code at concrete parameters `vals`: a failing input in
+    its own right, whatever the engine concluded.  Recorded as a refuted obligation (the report replays it)."""
+    cid = case_id(case)
+    for prop in cn.props:
+        if prop not in props:
+            continue
+        oid = f"{prop}/{contract.target}/{cn.name}" + (f"[{cid}]" if cid else "")
+        if any(o["id"] == oid and o["status"] == "refuted" for o in report["obligations"]):
+            continue
+        ob = {
+            "id": oid,
+            "prop": prop,
+            "kind": cn.kind,
+            "path": pi,
+            "bounded": cn.bounded or contract.bounded,
+            "lifts": False,
+            "status": "refuted",
+            "clause": cn.name,
+            "params": {k: v for k, v in vals.items()},
+            "schedule": {},
+            "note": cn.note,
+            "trace": getattr(cn, "_trace", None),
+            "raised": raised,
+            "backend": "cpython (native run)",
+            "observed_natively": True,
+            "regions": {},
+        }
+        for rn, rf in (cn.regions or {}).items():
+            rin = discharge.check(cn.hyps + [z3.Not(cn.goal), rf], 30)
+            rout = discharge.check(cn.hyps + [z3.Not(cn.goal), z3.Not(rf)], 30)
+            ob["regions"][rn] = {"fails_inside": rin["answer"], "fails_outside": rout["answer"], "inside_params": dict(vals), "outside_params": dict(vals), "inside_schedule": {}, "outside_schedule": {}}
+        report["obligations"].append(ob)
+
+
+def _native_probe(report, contract, case, path, P, props, pi):
+    """a path the engine cannot follow (undecided): the real code is still run natively at one parameter point of
+    the path and its postconditions evaluated there -- a false one is a failing input; a true one decides nothing"""
+    try:
+        vals = pc_values(path, P, ())
+    except Exception:  # noqa
+        return
+    if vals is None:
+        return
+    for n in P.order:
+        vals.setdefault(n, False if z3.is_bool(P.terms[n]) else 0)
+    try:
+        kind, Pn, res = run_native(contract, case, vals)
+    except Exception:  # noqa
+        return
+    report["diff_points"] += 1
+    if kind == "raise":
+        if _raised_in_library(res):
+            try:
+                announced = {n for (n, c) in contract.raises(Pn, case) if z3.is_true(z3.simplify(T(c)))}
+            except Exception:  # noqa
+                announced = set()
+            name = exc_name(res)
+            if name not in announced:
+                rprops = _props_of_raises(contract, props)
+                for prop in props:
+                    nm = f"raises_only_if[{name}]" if prop in rprops else f"reaches_postcondition[no unexpected {name}]"
+                    _native_refuted(report, contract, case, Clause(nm, z3.BoolVal(False), props=(prop,), kind="raises", note=f"{name}: {res}"[:300]), props, vals, pi, raised=name)
+        return
+    if kind != "ok":
+        return
+    try:
+        ncl = contract.clauses(Pn, res, case)
+    except Exception:  # noqa
+        return
+    for cn in ncl:
+        if not set(cn.props) & set(props):
+            continue
+        r = discharge.check(cn.hyps + [z3.Not(cn.goal)], 30)
+        if r["answer"] == "sat":
+            _native_refuted(report, contract, case, cn, props, vals, pi)
+
+
+def _raised_in_library(e):
+    """is the innermost frame of the exception inside the code under verification (or something it called),
+    rather than in the contract / scenario code of /verif?"""
+    tb = e.__traceback__
+    files = []
+    while tb is not None:
+        files.append(tb.tb_frame.f_code.co_filename)
+        tb = tb.tb_next
+    here = os.path.dirname(os.path.dirname(os.path.abspath(__file__)))
+    lib = [i for i, f in enumerate(files) if os.sep + "processscheduler" + os.sep in f]
+    mine = [i for i, f in enumerate(files) if f.startswith(here)]
+    return bool(lib) and (not mine or max(lib) > max(mine))
 
 
 # ------------------------------------------------------------------------------ replay
